@@ -126,6 +126,21 @@ def client_io(addr, line, timeout=60):
     return s
 
 
+def connect(m, c=0):
+    """A client's connection to the manager; where the manager is bound to every interface, clients take the
+    address families in either order (IPv6 loopback first or last) and fall back as a resolver-driven client does."""
+    alts = getattr(m, "alt_addrs", None)
+    if not alts:
+        return socket.create_connection(m.addr, timeout=10)
+    last = None
+    for a in (alts if c % 2 == 0 else alts[::-1]):
+        try:
+            return socket.create_connection(a, timeout=10)
+        except OSError as e:
+            last = e
+    raise last
+
+
 def read_reply(s, timeout=90):
     """The reply object, or None when nothing (parsable) arrives: an unanswered client is an
     observation (got(r, 0)), not a harness failure."""
@@ -187,7 +202,7 @@ def run_threads(m, rec, n_clients, n_reqs, rng, base_id):
     def client(c):
         for (rid, kind, req, st) in plans[c]:
             try:
-                s = socket.create_connection(m.addr, timeout=10)
+                s = connect(m, c)
                 time.sleep(delays.random() * 0.002)
                 s.sendall(json.dumps(req).encode() + b"\n")
                 reply = read_reply(s, 90 if m.alive() else 2)
@@ -728,6 +743,19 @@ def run(ctx):
         traces.append({"id": tid, "ev": run_ui_heartbeat_mix(m, rec, random.Random("uihb:%d" % ctx.seed), 990000)})
         info[tid] = {"scenario": "uiHeartbeat with 4 clients queued behind it, 3 rounds"}
         res.coverage["ui_heartbeat_mix_rounds"] = 3
+        # the manager bound to every interface (--bind 0.0.0.0, as the TCPSigner bundle starts it), clients arriving
+        # over both address families
+        m_any = LiveManager(2, host="0.0.0.0")
+        try:
+            rec_any = Recorder(m_any)
+            for j in range(ctx.pick(3, 20)):
+                ev, _ = run_threads(m_any, rec_any, 6, 3, random.Random("any:%d:%d" % (ctx.seed, j)), 1200000 + j * 2000)
+                tid = len(traces) + 1
+                traces.append({"id": tid, "ev": ev})
+                info[tid] = {"scenario": "manager bound to 0.0.0.0, 6 clients x 3 requests over ::1 and 127.0.0.1"}
+        finally:
+            m_any.stop()
+        res.coverage["bind_any_runs"] = ctx.pick(3, 20)
         tid = len(traces) + 1
         traces.append({"id": tid, "ev": run_ancestor_first(ctx, 995000)})
         info[tid] = {"scenario": "fresh manager: ancestor update first, then advances ending in partial success"}
